@@ -81,6 +81,7 @@ class Closure:
 class SliceIter:
     def __init__(self, items):
         self.items = list(items)
+        self.pos = 0
 
 
 class IterMutV:
@@ -468,6 +469,35 @@ class Interp:
             if c.startswith('<f64 as NumCast>'):
                 return [(pc, Enum('Some', [('to_f64', d[0])]))]
             return [(pc, Enum('Some', [d[0]]))]
+        if re.fullmatch(r'Vec::<.*>::len', c):
+            if not isinstance(d[0], list):
+                raise Untranslatable('Vec::len of a non-list')
+            return [(pc, len(d[0]))]
+        if re.fullmatch(r'<Vec<.*> as Deref>::deref', c):
+            return [(pc, argv[0])]
+        m = re.fullmatch(r'core::slice::<impl \[.*\]>::(first|last)', c)
+        if m:
+            if not isinstance(d[0], list):
+                raise Untranslatable('slice::first/last of a non-list')
+            if not d[0]:
+                return [(pc, Enum('None'))]
+            k = 0 if m.group(1) == 'first' else len(d[0]) - 1
+            return [(pc, Enum('Some', [Ref(lambda l=d[0], k=k: l[k])]))]
+        if re.fullmatch(r'<Vec<.*> as Index<usize>>::index', c):
+            if not isinstance(d[0], list) or not isinstance(d[1], int):
+                raise Untranslatable('Vec index with a symbolic index')
+            return [(pc, Ref(lambda l=d[0], k=d[1]: l[k]))]
+        if re.fullmatch(r'<.* as IntoIterator>::into_iter', c) and isinstance(d[0], (SliceIter, Adaptor)):
+            return [(pc, d[0])]
+        if re.fullmatch(r'<.* as Iterator>::next', c) and isinstance(d[0], SliceIter):
+            it = d[0]
+            if it.pos < len(it.items):
+                it.pos += 1
+                return [(pc, Enum('Some', [clone_val(it.items[it.pos - 1])]))]
+            return [(pc, Enum('None'))]
+        if re.fullmatch(r'<.* as Fn(Once|Mut)?<\(.*\)>>::call(_once|_mut)?', c) and isinstance(d[0], Closure):
+            args = d[1] if isinstance(d[1], list) else [d[1]]
+            return self.call_closure(d[0], args, pc, depth)
         if re.fullmatch(r'<(\w+) as Into<\1>>::into', c):
             return [(pc, d[0])]
         if re.fullmatch(r'<Vec<.*> as DerefMut>::deref_mut', c):
@@ -497,7 +527,7 @@ class Interp:
             if isinstance(opt, Enum) and opt.variant == 'Some':
                 return [(pc2, Enum('Some', [v])) for pc2, v in self.call_closure(d[1], [opt.fields[0]], pc, depth)]
             raise Untranslatable('Option::map of ' + repr(opt))
-        if re.fullmatch(r'<geo_types::Point<\w+> as From<geo_types::Coord<\w+>>>::from', c):
+        if re.fullmatch(r'<(geo_types|geometry::point)::Point<\w+> as From<(geo_types|geometry::coord)::Coord<\w+>>>::from', c):
             return [(pc, [d[0]])]
         if re.fullmatch(r'Option::<.*>::unwrap', c):
             e = d[0]
@@ -556,7 +586,8 @@ class Interp:
                 else:
                     outs.append((pc2, items))
             return outs
-        if re.fullmatch(r'<impl Into<Coord<\w+>> as Into<geo_types::Coord<\w+>>>::into', c) or re.fullmatch(r'<geo_types::Point<\w+> as Into<geo_types::Coord<\w+>>>::into', c):
+        if re.fullmatch(r'<impl Into<Coord<\w+>> as Into<geo_types::Coord<\w+>>>::into', c) or re.fullmatch(r'<geo_types::Point<\w+> as Into<geo_types::Coord<\w+>>>::into', c) \
+                or re.fullmatch(r'<C as Into<geometry::coord::Coord<\w+>>>::into', c):
             v = d[0]
             if isinstance(v, list) and len(v) == 1 and isinstance(deref(v[0]), list):
                 v = deref(v[0])   # a Point (tuple struct around a Coord) used where a Coord is expected
@@ -572,9 +603,9 @@ class Interp:
                 if isinstance(r, tuple) and len(r) == 2 and r[0] == 'halt':
                     raise Halt(pc, r[1])
                 return [(pc, r)]
-        for pat, (crate, fpat) in self.extra.items():
+        for pat, spec in self.extra.items():
             if re.fullmatch(pat, c):
-                return self.call_fn(self.mir.find(crate, fpat), argv, pc, depth + 1)
+                return self.call_fn(self.mir.find(*spec), argv, pc, depth + 1)
         raise Untranslatable('callee ' + c)
 
     def struct_eq(self, a, b):
